@@ -19,6 +19,13 @@ struct LatchComp {
         }
         return 0;
     }
-    void final(std::vector<std::vector<long>>& out) { out.push_back({(long)latch.counter_.vs_peek()}); }
+    void final(std::vector<std::vector<long>>& out)
+    {
+#ifndef VS_NO_PEEK
+        out.push_back({(long)latch.counter_.vs_peek()});
+#else
+        (void)out;
+#endif
+    }
 };
 int main(int argc, char** argv) { return vs::drive<LatchComp>(argc, argv); }
